@@ -69,6 +69,8 @@ def generate(rng, tier):
         out.append(p)
     # remove() given the scheduler's own live .doers list, or a lazy iterable over it
     out += sc.gen_remove_live(rng, 60 * n)
+    # remove() of doers one of which raises in its own cease/exit context
+    out += sc.gen_remove_hookraise(rng, 60 * n)
     return out
 
 
@@ -103,6 +105,19 @@ def check_calls(case, obs):
             ar = rec.get("after_raise")
             if rec["kind"] == "ext" and ar is not None and ar != before:
                 errs.append(("members", f"extend({rec['ids']}) on {t} raised but left doers {ar}, before the call {before}"))
+            if rec["kind"] == "rem" and ar is not None:
+                # the call raised out of a removed doer's own cease/exit context: whatever it force-closed is
+                # removed, closed doers never stay listed
+                closed = {i for k, i, _ in tr[rec["start"]:] if k == "Exit" and i in rec["ids"]}
+                upto = next((n for n, (k, i, _) in enumerate(tr[rec["start"]:]) if k in ("Abort", "DoRaise")), None)
+                if upto is not None:
+                    closed = {i for k, i, _ in tr[rec["start"]:rec["start"] + upto] if k == "Exit" and i in rec["ids"]}
+                still = [x for x in ar if x in closed]
+                if still:
+                    errs.append(("members", f"remove({rec['ids']}) on {t} raised out of a removed doer's exit context and left "
+                                            f"the force-closed doers {still} listed: {ar}"))
+                if ar is not None:
+                    members[t] = ar
             continue
         if before != members[t]:
             errs.append(("members", f"doers of {t} before call = {before}, added-and-not-removed = {members[t]}"))
